@@ -85,6 +85,57 @@ func ReadPostingsReuse(d segment.TermDictionary, term []byte, except *roaring.Bi
 	return hits, pl.Count(), nil
 }
 
+// FlagReads re-reads postings lists with every combination of the detail flags and requires the
+// requested details to equal those of the full read (frequency / norm without locations is what a
+// scorer asks for).
+func FlagReads(s segment.Segment, c *Content) (bad string) {
+	defer func() {
+		if r := recover(); r != nil {
+			bad = fmt.Sprintf("PANIC in flag reads: %v", r)
+		}
+	}()
+	for _, fd := range c.Dicts {
+		d, err := s.Dictionary(fd.Field)
+		if err != nil {
+			return err.Error()
+		}
+		// the longest list of the field
+		var th *TermHits
+		for i := range fd.Terms {
+			if th == nil || len(fd.Terms[i].Hits) > len(th.Hits) {
+				th = &fd.Terms[i]
+			}
+		}
+		if th == nil || len(th.Hits) < 2 {
+			continue
+		}
+		for fl := 0; fl < 8; fl++ {
+			wf, wn, wl := fl&1 != 0, fl&2 != 0, fl&4 != 0
+			pl, err := d.PostingsList([]byte(th.Term), nil, nil)
+			if err != nil {
+				return err.Error()
+			}
+			it := pl.Iterator(wf, wn, wl, nil)
+			for i, h := range th.Hits {
+				p, err := it.Next()
+				if err != nil || p == nil || p.Number() != h.Doc {
+					return fmt.Sprintf("%s/%q with flags (freq=%v norm=%v locs=%v): hit %d is %v (err %v), want doc %d", fd.Field, th.Term, wf, wn, wl, i, p, err, h.Doc)
+				}
+				if wf && p.Frequency() != h.Freq {
+					return fmt.Sprintf("%s/%q with flags (freq=%v norm=%v locs=%v): doc %d has frequency %d, the full read says %d", fd.Field, th.Term, wf, wn, wl, h.Doc, p.Frequency(), h.Freq)
+				}
+				if wn && p.(*zap.Posting).NormUint64() != h.Norm {
+					return fmt.Sprintf("%s/%q with flags (freq=%v norm=%v locs=%v): doc %d has norm %d, the full read says %d", fd.Field, th.Term, wf, wn, wl, h.Doc, p.(*zap.Posting).NormUint64(), h.Norm)
+				}
+				if wl && len(p.Locations()) != len(h.Locs) {
+					return fmt.Sprintf("%s/%q with flags (freq=%v norm=%v locs=%v): doc %d has %d locations, the full read says %d", fd.Field, th.Term, wf, wn, wl, h.Doc, len(p.Locations()), len(h.Locs))
+				}
+			}
+		}
+	}
+	return ""
+}
+
 // InterleavedLookups reads like a conjunction query does: an iterator obtained for an absent term is
 // recycled (prealloc) for a present term, one hit is taken, an absent term of another field is
 // looked up (must be empty), then the first iterator is drained (must yield the rest of its hits).
